@@ -184,6 +184,32 @@ impl Checker for C14 {
                 }
             }
         }
+        // a flush that failed because of a storage fault, retried: once the retry returns Ok the file must be durable
+        if matches!(ops.last(), Some(Op::Flush { h: 0 })) && p == n - 1 {
+            let calls = ex.calls_last;
+            let mut retry_ops = ops.to_vec();
+            retry_ops.push(Op::Flush { h: 0 });
+            for k in 1..=calls {
+                let plan = Plan { fault: Some((k, 0x00FA_0000 + k as u32)), fault_op: Some(n - 1), ..self.plan() };
+                let fx = sess::run(cfg, &retry_ops, &plan);
+                if fx.panic.is_some() {
+                    continue; // panics under faults belong to C09
+                }
+                let failed_then_ok = matches!(fx.outs.get(n - 1), Some(Err(_))) && matches!(fx.outs.get(n), Some(Ok(_)));
+                if !failed_then_ok {
+                    continue;
+                }
+                let Some(fnode) = fx.model.nodes.values().find(|x| x.given == "f") else { continue };
+                let want2 = fnode.data.clone();
+                let flog = &fx.log;
+                let j = flog.len();
+                let detail = format!("flush failed at device call {k}/{calls}, the retried flush returned Ok");
+                run("retry-after-failed-flush-prefix", image_from(cfg, flog, &|i| i < j), &mut v, detail.clone());
+                let _ = &want2;
+                let barrier = flog.iter().rposition(|r| r.kind == Kind::Flush).map_or(0, |b| b + 1);
+                run("retry-after-failed-flush-epoch-loss", image_from(cfg, flog, &|i| i < barrier), &mut v, detail);
+            }
+        }
         let mut s = self.ctr.samples.lock().unwrap();
         if s.len() < 4 && positions.len() > 1 {
             s.push(json!({"config": cfg.name, "history": ops.iter().map(|o| format!("{o:?}")).collect::<Vec<_>>(), "durability_point_op": p, "crash_positions_in_last_op": positions.len(), "log_records": log.len()}));
